@@ -27,7 +27,12 @@ def run(tier):
              60 if tier == 'quick' else 600)
     # R02.5 also on the NDEBUG flavour: with asserts on, a path that violates an internal consistency
     # assert ends in __assert_fail and is not a returning path; what users run has no such cut
-    res2 = corpus.run_over(cfgs, 'svlib.rules.ir_pair', 'analyse_tu_shrink')
+    # The same for R02.1 (the pair written must be consistent whatever an assert would have said);
+    # R02.2 needs the asserts as facts (swap_default) and stays on the assert flavour only.
+    res2 = corpus.run_over(cfgs, 'svlib.rules.ir_pair', 'analyse_tu')
+    for r in res2:
+        if r['ok']:
+            r['res']['reports'] = [x for x in r['res']['reports'] if x.rule in ('R02.1', 'R02.5')]
     irrules.aggregate(ck, res2)
     ck.floor('returning paths of shrink_to_fit judged (NDEBUG flavour)', sum(r['res']['shrink_paths'] for r in res2 if r['ok']),
              30 if tier == 'quick' else 300)
